@@ -546,8 +546,8 @@ def stmt_exact(d, top=True):
     return all(stmt_exact(v, False) for kk, v in d.items() if kk not in ("values", "defaults"))
 
 
-FEATURE_PRIORITY = ["nested-field-wrapper", "positional-shorter", "map-size", "oneOf", "notF", "allOf",
-                    "sign-with-explicit-bound", "exclusiveMaximum-without-maximum", "unique-by-python-eq"]
+FEATURE_PRIORITY = ["nested-field-wrapper", "positional-shorter", "map-size", "map-key-constraint", "oneOf", "notF", "allOf",
+                    "sign-with-explicit-bound", "unique-by-python-eq"]
 
 
 def inexact_features(d, acc):
@@ -563,14 +563,15 @@ def inexact_features(d, acc):
             pass
         if k in ("mapOf", "mapAny") and (d.get("minItems") is not None or d.get("maxItems") is not None):
             acc.add("map-size")
+        if k == "mapOf" and d["key"].get("k") == "string" and (d["key"].get("pattern") or d["key"].get("minLength")
+                                                                or d["key"].get("maxLength")):
+            acc.add("map-key-constraint")
         if k in ("oneOf", "notF", "allOf"):
             acc.add(k)
         if k in ("integer", "number", "float") and d.get("sign", "any") != "any":
             if (d["sign"] in ("pos", "nonneg") and d.get("min") is not None) or \
                     (d["sign"] in ("neg", "nonpos") and d.get("max") is not None):
                 acc.add("sign-with-explicit-bound")
-        if k in ("integer", "number", "float") and d.get("excl") and d.get("max") is None:
-            acc.add("exclusiveMaximum-without-maximum")
         if k in ("seqOf", "seqPos", "seqAny", "tupleOf", "tuplePos") and d.get("uniq"):
             acc.add("unique-by-python-eq")
         if k == "anyOf" and len(d["fields"]) == 2 and d["fields"][1].get("k") == "noneF":
@@ -620,10 +621,6 @@ def _admit_key(err):
         return "sign-only-float-bound"
     if v == "maximum" and err["value"] == -0.000001:
         return "sign-only-float-bound"
-    if v == "maximum" and sch.get("exclusiveMaximum") and err["value"] in (0, -1, -0.000001) and inst == err["value"]:
-        return "exclusiveMaximum-without-maximum"
-    if v == "additionalItems" and isinstance(sch.get("items"), list) and len(sch["items"]) == 1:
-        return "homogeneous-tuple"
     if v == "required":
         m = re.match(r"'(.*)' is a required property", err["msg"])
         name = m.group(1) if m else None
